@@ -275,6 +275,9 @@ def num_match(exp, got):
         if isinstance(exp, int):
             return got.frac() == exp
         try:
+            if got.is_int and I64_MIN <= int(got.text) <= U64_MAX:
+                # an integer token of the 64-bit ranges denotes that integer exactly (2^64-1 is not the double 2^64)
+                return exp == exp and abs(exp) != float("inf") and Fraction(exp) == int(got.text)
             return float(got.text) == exp
         except (ValueError, OverflowError):
             return False
